@@ -1,6 +1,6 @@
 (* Props/C03.v — property C03: symbol tables enumerate exactly; name and hash lookups are
    complete and sound.  Only statements, closed by [exact]; proofs live in
-   Proofs/C03Tables.v, C03Sym.v, C03HashFn.v, C03Sysv.v, C03Gnu.v, C03Image.v.
+   Proofs/C03Tables.v, C03Sym.v, C03HashFn.v, C03GenHash.v, C03Sysv.v, C03Gnu.v, C03Image.v.
 
    Model: Model/C03Sections.v (sections.py: StringTableSection.get_string,
    SymbolTableSection num_symbols / get_symbol / iter_symbols / get_symbol_by_name,
@@ -22,7 +22,7 @@
    the model mirrors the repaired code, so every theorem is at full strength. *)
 From PV Require Import Base.Outcome Base.Fmt Base.Prim.
 From PV Require Import Gen.ElfLayouts Gen.PyFuns Spec.ElfGabi Spec.C03Sym Spec.C03Hash Model.C03Sections Model.C03Hash.
-From PV Require Import Proofs.C03Tables Proofs.C03HashFn Proofs.C03Sysv Proofs.C03Gnu Proofs.C03Sym Proofs.C03Image.
+From PV Require Import Proofs.C03Tables Proofs.C03HashFn Proofs.C03GenHash Proofs.C03Sysv Proofs.C03Gnu Proofs.C03Sym Proofs.C03Image.
 Open Scope list_scope.
 Open Scope Z_scope.
 
